@@ -81,6 +81,7 @@ class Engine:
         self.exc_cls = z3.Function("exc_cls", self.U.Exc, z3.IntSort())
         self.cls_of = z3.Function("cls_of", self.U.Ref, z3.IntSort())
         self.born = z3.Function("born", self.U.Ref, z3.IntSort())
+        self.rec_sub = z3.Function("rec_sub", z3.IntSort(), z3.IntSort(), z3.BoolSort())
         self.cls_ids = {}
         self.specfns = {}
         self.global_axioms_built = False
@@ -97,29 +98,31 @@ class Engine:
         if ty is NONE:
             return SVal(None, NONE)
         c = z3.Const(self.fresh_name(hint), self.U.sort(ty))
-        w = self.wf(c, ty)
-        if w is not None:
-            self.wf_axioms.append(w)
+        for part, store in (("len", self.axioms), ("cells", self.wf_axioms)):
+            w = self.wf(c, ty, part)
+            if w is not None:
+                store.append(w)
         return SVal(c, ty)
 
-    def wf(self, t, ty, depth=0):
-        """well-formedness of a symbolic value: lists are in canonical form (see seqs.py); None if nothing to say"""
+    def wf(self, t, ty, part, depth=0):
+        """well-formedness of a symbolic value: lists have len >= 0 (part 'len') and are in canonical form (part 'cells',
+        see seqs.py); None if nothing to say"""
         if isinstance(ty, TList):
-            return Q.Canonical(t)
+            return Q.NonNegLen(t) if part == "len" else Q.CellsCanonical(t)
         if depth > 1:
             return None
         if isinstance(ty, TOpt):
             dt = self.U.dt(ty)
-            w = self.wf(dt.get(t), ty.inner, depth + 1)
+            w = self.wf(dt.get(t), ty.inner, part, depth + 1)
             return None if w is None else z3.Implies(dt.is_some(t), w)
         if isinstance(ty, TTuple):
             dt = self.U.dt(ty)
-            ws = [self.wf(dt.accessor(0, i)(t), e, depth + 1) for i, e in enumerate(ty.elems)]
+            ws = [self.wf(dt.accessor(0, i)(t), e, part, depth + 1) for i, e in enumerate(ty.elems)]
             ws = [w for w in ws if w is not None]
             return z3.And(ws) if ws else None
         if isinstance(ty, TVal):
             dt = self.U.dt(ty)
-            ws = [self.wf(dt.accessor(0, i)(t), fty, depth + 1) for i, fty in enumerate(self.U.all_fields(ty.cls).values())]
+            ws = [self.wf(dt.accessor(0, i)(t), fty, part, depth + 1) for i, fty in enumerate(self.U.all_fields(ty.cls).values())]
             ws = [w for w in ws if w is not None]
             return z3.And(ws) if ws else None
         return None
@@ -127,9 +130,10 @@ class Engine:
     def wf_array(self, arr, ty):
         """forall r. wf(arr[r]) for a heap array version"""
         r = z3.Const("r!wf", self.U.Ref)
-        w = self.wf(arr[r], ty)
-        if w is not None:
-            self.wf_axioms.append(z3.ForAll([r], w, patterns=[arr[r]]))
+        for part, store in (("len", self.axioms), ("cells", self.wf_axioms)):
+            w = self.wf(arr[r], ty, part)
+            if w is not None:
+                store.append(z3.ForAll([r], w, patterns=[arr[r]]))
 
     def wf_function(self, f, arg_sorts, res_ty=None):
         """forall args. canonical(f(args)) for an uninterpreted function returning a list"""
@@ -138,7 +142,8 @@ class Engine:
             return
         consts = [z3.Const(f"a!wf{i}", s) for i, s in enumerate(arg_sorts)]
         app = f(*consts)
-        self.wf_axioms.append(z3.ForAll(consts, Q.Canonical(app), patterns=[app]) if consts else Q.Canonical(app))
+        self.axioms.append(z3.ForAll(consts, Q.NonNegLen(app), patterns=[app]) if consts else Q.NonNegLen(app))
+        self.wf_axioms.append(z3.ForAll(consts, Q.CellsCanonical(app), patterns=[app]) if consts else Q.CellsCanonical(app))
 
     def uf(self, name, arg_sorts, res_sort):
         key = (name, tuple(str(s) for s in arg_sorts), str(res_sort))
@@ -197,7 +202,6 @@ class Engine:
                     ax.append(z3.ForAll([c], z3.Implies(self.exc_sub(c, z3.IntVal(ia)), self.exc_sub(c, z3.IntVal(ib)))))
         # record-class hierarchy for isinstance on Ref values
         citems = list(self.cls_ids.items())
-        self.rec_sub = getattr(self, "rec_sub", z3.Function("rec_sub", z3.IntSort(), z3.IntSort(), z3.BoolSort()))
         for a, ia in citems:
             for b, ib in citems:
                 ax.append(self.rec_sub(z3.IntVal(ia), z3.IntVal(ib)) == z3.BoolVal(self.U.is_subclass(a, b)))
@@ -457,7 +461,7 @@ class Engine:
         return r != "unsat"
 
     def axioms_now(self, wf=True):
-        return list(self.axioms) + (list(self.wf_axioms) if wf else []) + self.hierarchy_axioms()
+        return list(self.axioms) + list(Q.AXIOMS) + (list(self.wf_axioms) if wf else []) + self.hierarchy_axioms()
 
     def satisfiable(self, constraints, ms=3000):
         """model search for vacuity/cover checks: 'sat' | 'unsat' | 'unknown'.  If the full query is `unknown`, the
@@ -703,6 +707,9 @@ class Engine:
             return PyObj(g.obj[name])
         if hasattr(_bi, name):
             return PyObj(getattr(_bi, name))
+        sg = getattr(self.reg, "spec_globals", {})
+        if name in sg:
+            return PyObj(sg[name])
         if name in SPEC_BUILTINS:
             return PyObj(SPEC_BUILTINS[name])
         raise OutsideSubset(f"unbound name {name}")
@@ -1055,6 +1062,13 @@ class Engine:
         """x in seq, as an index quantifier (z3 relates seq.contains and seq.nth poorly)"""
         return Q.Member(seq, x, self.fresh_name("mi"))
 
+    def str_contains(self, s, sub):
+        """substring test: evaluated when both are literals, otherwise an uninterpreted predicate (z3's string theory is
+        kept out of quantified obligations)"""
+        if z3.is_string_value(s) and z3.is_string_value(sub):
+            return z3.BoolVal(sub.as_string() in s.as_string())
+        return self.uf("str_contains", [z3.StringSort(), z3.StringSort()], z3.BoolSort())(s, sub)
+
     def contains(self, container, x, st):
         if isinstance(container, STuple):
             return z3.Or([self.eq(x, it, st) for it in container.items]) if container.items else z3.BoolVal(False)
@@ -1081,7 +1095,7 @@ class Engine:
         if isinstance(ty, TDict):
             return z3.Select(self.U.dt(ty).dom(c.t), self.coerce(x, ty.k, st).t)
         if ty is STR:
-            return z3.Contains(c.t, self.coerce(x, STR, st).t)
+            return self.str_contains(c.t, self.coerce(x, STR, st).t)
         if isinstance(ty, TTuple):
             dt = self.U.dt(ty)
             return z3.Or([self.eq(x, SVal(dt.accessor(0, i)(c.t), e), st) for i, e in enumerate(ty.elems)])
@@ -1093,11 +1107,18 @@ class Engine:
     # attribute / subscript -----------------------------------------------------------------------
     def ev_Attribute(self, node, st):
         for s, base in self.ev(node.value, st):
-            yield from self.getattr_(base, node.attr, s, node)
+            for s2, v in self.getattr_(base, node.attr, s, node):
+                if isinstance(v, BoundM) and v.lv is None and isinstance(node.value, ast.Name) and node.value.id in s2.env \
+                        and not any(node.value.id in f for f in s2.bound):
+                    v = BoundM(v.recv, v.name, LV("var", node.value.id))
+                yield s2, v
 
     def getattr_(self, base, attr, st, node=None):
         if isinstance(base, PyObj):
             o = base.obj
+            if type(o).__name__ == "SuperProxy":
+                yield st, BoundM(base, attr)
+                return
             try:
                 yield st, PyObj(getattr(o, attr))
             except AttributeError:
@@ -1111,7 +1132,7 @@ class Engine:
                 base = SVal(self.U.dt(base.ty).get(base.t), base.ty.inner, base.origin)
             else:
                 dt = self.U.dt(base.ty) if isinstance(base.ty, TOpt) else None
-                ok = dt.is_some(base.t) if dt else z3.BoolVal(False)
+                ok = dt.is_some(base.t) if dt is not None else z3.BoolVal(False)
                 st = self.guard(st, ok, AttributeError, f"None.{attr}")
                 if st is None:
                     return
@@ -1250,6 +1271,10 @@ class Engine:
                 ok = it >= 0
             elif z3.is_int_value(it):
                 ok = it < n
+            elif st.spec or st.nofork:
+                # pure contexts index with non-negative terms (range / enumerate / quantifier indices): keeping the index
+                # term free of if-then-else keeps it usable as a quantifier trigger
+                ok = z3.And(it >= 0, it < n)
             else:
                 ok = z3.And(it >= -n, it < n)
                 it = z3.If(it < 0, n + it, it)
@@ -1269,6 +1294,10 @@ class Engine:
                 if st is None:
                     return
             yield st, SVal(z3.Select(dt.val(base.t), k.t), ty.v, LV("key", lvb, k) if lvb is not None else None)
+            return
+        if isinstance(ty, TMap):
+            k = self.coerce(idx, ty.k, st)
+            yield st, SVal(z3.Select(base.t, k.t), ty.v)
             return
         if isinstance(ty, TTuple):
             i = self.coerce(idx, INT, st)
